@@ -30,8 +30,16 @@ def materialize(items, t0=1000, step=7):
     mode = 0
     if _CLOCK[0] is not None and step:
         c = _CLOCK[0].random()
-        mode = 0 if c < 0.6 else 1 if c < 0.8 else 2
+        mode = 0 if c < 0.5 else 1 if c < 0.65 else 2 if c < 0.8 else 3
     for i, (tid, (code, qual, payload)) in enumerate(items):
+        if mode == 3:
+            # per-CPU clocks are not perfectly aligned and buffers are merged record by record: a record may be stamped
+            # a few ticks EARLIER than the record before it (also than the START of its window).  Never below t0 - 30.
+            jt = ts + _CLOCK[0].randrange(-30, 31)
+            jt += (jt & 0xff) == 0          # (a v2 dump whose first record begins with a zero byte is finding F02's class)
+            out.append(ev.mk(jt, code, qual, payload, tid))
+            ts += step
+            continue
         out.append(ev.mk(ts, code, qual, payload, tid))
         if mode == 0 or (mode == 1 and i % 3 == 2):
             ts += step
@@ -172,8 +180,32 @@ def thd_data(pid, tid, dq=0, runmode=1):
     return A('PERF_THD_Data', NONE, (pid, tid, dq, runmode))
 
 
+_SPARE = [None]
+
+
+def set_spare(rng):
+    """Opt-in: words of a record that the property gives no meaning to (the third and fourth word of a callstack header)
+    are no longer written as zeros but drawn: 0, a small count, a sentinel, a random word.  A decoder that starts to read
+    such a word changes what the property pins down."""
+    _SPARE[0] = rng
+
+
+def spare():
+    rng = _SPARE[0]
+    if rng is None:
+        return 0
+    c = rng.random()
+    if c < 0.3:
+        return 0
+    if c < 0.7:
+        return rng.randrange(1, 9)
+    if c < 0.8:
+        return rng.choice(domain.SENTINEL_WORDS)
+    return rng.getrandbits(rng.choice((8, 32, 64)))
+
+
 def stk_uhdr(flags, nframes):
-    return A('PERF_STK_UHdr', NONE, (flags, nframes, 0, 0))
+    return A('PERF_STK_UHdr', NONE, (flags, nframes, spare(), spare()))
 
 
 def stk_udata(frames):
@@ -187,11 +219,16 @@ def stk_udata(frames):
 # from, so the quick tier steps over it record by record (a cap may be off by one in either direction and may count the
 # START, the END, both or neither), and the thorough tier continues to 10^5, 2^17 and 2^18.
 def _around(t):
-    return tuple(t + d for d in (-2, -1, 0, 1, 2))
+    # T-2 .. T+2, and one size clearly beyond the threshold (a cap may act only when a later record arrives)
+    return tuple(t + d for d in (-2, -1, 0, 1, 2)) + (t + t // 16 + 7,)
 
 
-SCALE_RUNGS_QUICK = (4095, 4096, 5000) + _around(1 << 16) + (70000,)
-SCALE_RUNGS_THOROUGH = SCALE_RUNGS_QUICK + (16384, 20000) + _around(100000) + _around(1 << 17) + ((1 << 18) + 1,)
+SCALE_RUNGS_QUICK = (4095, 4096, 5000) + _around(1 << 16) + _around(1 << 20)
+SCALE_RUNGS_THOROUGH = SCALE_RUNGS_QUICK + (16384, 20000) + _around(100000) + _around(1 << 17) + ((1 << 18) + 1,) + \
+    _around(10 ** 6) + _around(1 << 21) + ((1 << 22) + 1,)
+# (2^20 records of one thread inside one call is a 64 MiB capture - a long sleep on a busy thread; the ladder ends at
+# 2^22 + 1: a cap beyond that is not covered.  Windows this long are built from 97 filler record OBJECTS repeated by
+# reference, all on the tick of the record before them - see stretched_events.)
 
 HEADER_COUNT_BOUNDARIES = ((1 << 31) - 1, 1 << 31, (1 << 32) - 1, 1 << 32, (1 << 32) + 1, (1 << 32) + 2, (1 << 63) + 1,
                            (1 << 64) - 1)
@@ -240,6 +277,37 @@ def window_filler(rng, n):
                 base.append(a)
     base = base[:97]
     return (base * (n // 97 + 1))[:n]
+
+
+def stretched_events(seq, where, n_total, rng, tid=6, t0=5000):
+    """The abstract window `seq` (START first, END last) as events, stretched to exactly n_total records by filler
+    records inserted before position `where`.  The filler is 97 distinct record objects repeated by reference (a
+    window of a million records then costs a list of references, not a million objects); they carry the tick of the
+    record before them (coarse clock).  Returns (events, ids of the window's own events)."""
+    base = materialize([(tid, a) for a in seq], t0=t0, step=7)
+    k = max(0, n_total - len(base))
+    tick = base[where - 1].timestamp if where else t0
+    objs = [ev.mk(tick, code, qual, payload, tid) for code, qual, payload in window_filler(rng, 97)]
+    filler = (objs * (k // 97 + 1))[:k]
+    return base[:where] + filler + base[where:], {id(e) for e in base}
+
+
+def census_nested():
+    """[(decodable name D, code id X)]: every code of the bundled table once as a record nested in a call window - in the
+    window of the decoder whose name its own name extends where there is one (BSC_mmap_extended_info inside BSC_mmap,
+    MACH_SCHED_LOAD next to MACH_SCHED ...: the records a kernel really logs inside that call), else in the window of a
+    BSD syscall picked by the code's number."""
+    inv = inventory()
+    table = ev.bundled_codes()
+    dec = sorted(inv['decodable'], key=len, reverse=True)
+    bsd = sorted(inv['bsd'])
+    out = []
+    for cid in sorted(table):
+        name = table[cid]
+        host = next((d for d in dec if d.startswith('BSC_') and name != d and
+                     (name.startswith(d) or name.startswith(d.replace('BSC_', 'BSC_sys_', 1)))), None)
+        out.append((host or bsd[(cid >> 2) % len(bsd)], cid))
+    return out
 
 
 def chunk_safe(path: bytes):
